@@ -96,6 +96,31 @@ func runR35(c *Ctx) {
 			}
 		}
 	}
+	// the regexp matcher: the whole decision is the regular expression's
+	if rm := p.Func(sp, "RegexpMatcher.Matches"); rm != nil {
+		key := sp + ".RegexpMatcher.Matches"
+		var rets []*ssa.Return
+		eachInstr(rm, func(in ssa.Instruction) {
+			if r, ok := in.(*ssa.Return); ok {
+				rets = append(rets, r)
+			}
+		})
+		okRe := false
+		if len(rets) == 1 && len(rets[0].Results) == 1 {
+			if call, ok := rets[0].Results[0].(*ssa.Call); ok {
+				if o := calleeObj(call); isFuncNamed(o, "regexp", "Regexp", "MatchString") && len(call.Call.Args) == 2 && call.Call.Args[1] == ssa.Value(rm.Params[1]) {
+					okRe = true
+				}
+			}
+		}
+		if okRe {
+			c.ok(key, p.pos(rm.Pos()), "single return: the regular expression's MatchString on the cell")
+		} else {
+			c.bad(key, p.pos(rm.Pos()), "the regexp matcher does not decide by a single MatchString(cell) of the compiled expression: an extra test (a literal-prefix or length pre-filter) rejects cells in which the match does not start at the first byte, which is wrong for every pattern with a leading %")
+		}
+	} else {
+		c.bad(sp+".RegexpMatcher.Matches", "-", "matcher type or its Matches method not found")
+	}
 	// (b) NewMatcher on 16 valuations
 	fn := p.anchorMatcherCtor()
 	if fn == nil || len(fn.Params) != 2 {
@@ -252,6 +277,46 @@ func runR35(c *Ctx) {
 			})
 			if !found {
 				c.undecided(key, p.pos(fn.Pos()), "no constant case flag passed on")
+			}
+			// every answer comes from the one matcher constructor: no path reports success without NewMatcher
+			// having classified the pattern (a private notion of `plain string` in one column type makes string
+			// and enum columns disagree on patterns such as mon|tue or a{2})
+			ctor := p.anchorMatcherCtor()
+			mkey := cp + "." + name + "|matcher from NewMatcher"
+			if ctor == nil || errResultIndex(fn.Signature) < 0 {
+				continue
+			}
+			var mustCall func(f *ssa.Function, d int) bool
+			mustCall = func(f *ssa.Function, d int) bool {
+				if f == nil || f.Blocks == nil || d > 3 {
+					return false
+				}
+				calls := func(b *ssa.BasicBlock) bool {
+					for _, in := range b.Instrs {
+						if call, ok := in.(*ssa.Call); ok {
+							if g := call.Call.StaticCallee(); g == ctor || (g != nil && g != f && g.Pkg == f.Pkg && mustCall(g, d+1)) {
+								return true
+							}
+						}
+					}
+					return false
+				}
+				for _, rb := range append([]*ssa.BasicBlock{f.Blocks[0]}, reachableAvoiding(f.Blocks[0], calls)...) {
+					if calls(rb) {
+						continue
+					}
+					if ret, ok := rb.Instrs[len(rb.Instrs)-1].(*ssa.Return); ok {
+						if errResultIndex(f.Signature) < 0 || mayReportSuccess(ret) {
+							return false
+						}
+					}
+				}
+				return true
+			}
+			if mustCall(fn, 0) {
+				c.ok(mkey, p.pos(fn.Pos()), "every path that reports success has passed NewMatcher")
+			} else {
+				c.bad(mkey, p.pos(fn.Pos()), "some path answers the pattern without strings.NewMatcher having classified it: which patterns count as plain strings, wildcards or regular expressions is then decided twice, and the two column types can disagree")
 			}
 		}
 	}
@@ -490,6 +555,51 @@ func runR26(c *Ctx) {
 		} else {
 			c.bad(key, p.pos(fn.Pos()), "does not parse with "+w[0]+"."+w[1]+" (64 bit)")
 		}
+	}
+	// every typed cell the CSV reader produces is the parse of that cell's own text by the parser of its type: a
+	// float obtained by converting the int parse of the same text has lost the sign of -0 (and would lose anything
+	// else the int syntax does not carry)
+	if ctd := p.anchorColumnToData(); ctd != nil {
+		parserOf := map[types.BasicKind]string{types.Float64: "ParseFloat", types.Int: "ParseInt", types.Bool: "ParseBool"}
+		eachInstr(ctd, func(in ssa.Instruction) {
+			call, ok := in.(*ssa.Call)
+			if !ok || builtinName(call) != "append" || len(call.Call.Args) != 2 {
+				return
+			}
+			sl, ok := call.Type().Underlying().(*types.Slice)
+			if !ok {
+				return
+			}
+			bt, ok := sl.Elem().Underlying().(*types.Basic)
+			if !ok {
+				return
+			}
+			want, ok := parserOf[bt.Kind()]
+			if !ok {
+				return
+			}
+			for _, el := range variadicElems(call.Call.Args[1]) {
+				key := fname(ctd) + "|" + bt.Name() + " cell provenance"
+				okEl := false
+				switch t := el.(type) {
+				case *ssa.Extract:
+					if pc, ok := t.Tuple.(*ssa.Call); ok && t.Index == 0 {
+						if isFuncNamed(calleeObj(pc), rel("internal/strings"), "", want) {
+							okEl = true
+						}
+					}
+				case *ssa.Call:
+					if isFuncNamed(calleeObj(t), "math", "", "NaN") && bt.Kind() == types.Float64 {
+						okEl = true
+					}
+				}
+				if okEl {
+					c.ok(key, p.instrPos(call), "the cell is "+want+" of its own text (or NaN for an empty float cell)")
+				} else {
+					c.bad(key, p.instrPos(call), fmt.Sprintf("a %s cell is appended that is not the result of %s on that cell's text (%s): values converted from another type's parse of the text lose what that type cannot carry (-0 becomes 0)", bt.Name(), want, describe(el)))
+				}
+			}
+		})
 	}
 	// ToCSV passes "" as naRep
 	if fn := p.Func("", "QFrame.ToCSV"); fn != nil {
